@@ -503,6 +503,7 @@ class GeoFamily(Family):
 
 class ClimateFamily(Family):
     name = "ClimateNetwork"
+    always = (".adjacency",)
 
     def __init__(self):
         names = ["degree", "nsi_degree", "local_clustering", "transitivity",
@@ -782,6 +783,8 @@ NETQ = ["transitivity_dim_single_scale", "local_clustering_dim_single_scale",
 
 
 class RPFamily(Family):
+    always = ("recurrence_matrix",)
+
     def __init__(self, kind):
         self.kind = kind
         self.name = kind
